@@ -26,6 +26,17 @@ inductive Err where
   | none_            -- an `Option::None` result
   deriving Repr, DecidableEq, Inhabited
 
+/-- short stable name, printed after ` | ` as a fidelity note -/
+def Err.code : Err → String
+  | .invalidAccountData => "InvalidAccountData"
+  | .invalidArgument => "InvalidArgument"
+  | .accountDataTooSmall => "AccountDataTooSmall"
+  | .arithmeticOverflow => "ArithmeticOverflow"
+  | .invalidRealloc => "InvalidRealloc"
+  | .invalidInstructionData => "InvalidInstructionData"
+  | .custom c => s!"c{c}"
+  | .none_ => "None"
+
 inductive Res (α : Type) where
   | ok (a : α)
   | err (e : Err)
